@@ -417,3 +417,13 @@ func Hex(b []byte) string {
 	}
 	return fmt.Sprintf("%s…(%d bytes)…%s", hex.EncodeToString(b[:24]), len(b), hex.EncodeToString(b[len(b)-8:]))
 }
+
+// Go runs f in a new goroutine under Guard (a panic in a spawned goroutine would otherwise
+// kill the whole child process) and signals wg when done.
+func (m *M) Go(wg *sync.WaitGroup, entry string, f func()) {
+	wg.Add(1)
+	go func() {
+		defer wg.Done()
+		m.Guard(entry, nil, f)
+	}()
+}
